@@ -100,7 +100,7 @@ func TestVerifC14Ctl(t *testing.T) {
 		t.Fatal(err)
 	}
 	defer func() { st.Close(); side.Close(); stats.Write("c14ctl") }()
-	c14LargeBoost = 25 // 4 % large pools here: 65..600 nodes through the real constructor and loop
+	c14LargeBoost = 45 // 6 % large pools here: 65..600 nodes through the real constructor and loop
 
 	port := 0
 	run := func(nodes []c14Node, d *c14Def, forceDirect bool) {
